@@ -14,7 +14,11 @@ CFG = {
          'thread late at Wait / workers slow / some threads consistently slow).  grid = full product entry x k in {1,2,3,4,8,17} x b in {1,100} x '
          '{fewer, equal, more jobs than threads} (1080 cases x 6 repetitions quick, x 10 thorough); random (1920 quick / 60000 thorough '
          'cases) = random entry, k also in 2..20, b in '
-         '{1,2,5,100}.  Per parallel run: (1) outputs (likelihood per step, all parameters / the table of log densities) against the sequential '
+         '{1,2,5,100}, option combination and bad observation at random.  errors = 17 entries whose jobs evaluate densities (EM / Baum-Welch '
+         'estimators, the eight EvaluateLogPdf data sets, the numeric estimator) x the same grid, with one observation no component can explain '
+         '(non-integer / negative count, value outside the categories, +Inf): the outcome of the sequential run (error or nil, outputs) is the '
+         'reference; options = the 8 EM / Baum-Welch entries x {OptimizeEmissions=false, OptimizeWeights/Transitions=false, both} x the same '
+         'grid (includes pools larger than the number of observations / records).  Per parallel run: (1) outputs (likelihood per step, all parameters / the table of log densities) against the sequential '
          'run; (2) Event log: same multiset of (site, item) as the sequential run (lost / double), nothing logged after the call returned (late), '
          'thread id < k and used by one goroutine per call; (4) watchdog in logical steps.  (3) the race build runs one case in two of the same '
          'list (no Event hook there, its mutex would order the threads for the detector).  non-trivial = parallel run with k >= 2 that was judged '
@@ -28,7 +32,10 @@ CFG = {
                'on rounding).  Observed maxima are in monitor_counters ("max:observed |diff|/(terms*eps*scale)").  One lost or doubled '
                'contribution moves an output by >= ~1e-3/n relative (every observation has a distinct value and >= 1/(4n) of the weight), i.e. '
                '>= 1e3 allowances at K = 2^16 (the mutants move outputs by 1e7..1e14 allowances).  EvaluateLogPdf tables: bit-identical (no reduction).  Logistic regression: pool of 1 == sequential '
-               'bit-identical; k > 1: repetitions bit-identical with each other (see assumptions).  Deadlock: no Event/Yield for 20 s wall AND '
+               'bit-identical; k > 1: repetitions bit-identical with each other (see assumptions).  Error path: a parallel run that returns nil where the sequential run returned an error is charged '
+               '(error-lost) when no repetition of >= 3 returned the error; a loss in some repetitions only is the thread pool dependency '
+               '(its job wrapper runs wg.Done before the worker stores the error: 8 of 12e6 runs of a program using only threadpool) and is '
+               'counted, not charged.  Deadlock: no Event/Yield for 20 s wall AND '
                '< 0.5 s process CPU in that window AND every goroutine of the call blocked in the dump; otherwise not judged.',
  'assumptions': ['the zero-value threadpool.ThreadPool executes jobs inline on the caller (threadpool@0302c226b91e) and is the sequential reference',
                  'sparse L1 logistic regression with k > 1 threads is by design another estimator than the sequential one (k SAGA workers on '
@@ -41,6 +48,28 @@ CFG = {
                  're-association bound covers',
                  'classifiers take no thread pool; ScalarBatchId / VectorBatchId are driven through the shape HMM only'],
  'min_cov': {
+             'distinct option cells': 537,
+             'error-path:cases': 693,
+             'error-path:parallel run reports the error too': 2169,
+             'error-path:reports the error:matrixEstimator.HmmStdDataSet.EvaluateLogPdf': 37,
+             'error-path:reports the error:matrixEstimator.MixtureStdDataSet.EvaluateLogPdf': 38,
+             'error-path:reports the error:matrixEstimator.hmm': 38,
+             'error-path:reports the error:matrixEstimator.mixture': 37,
+             'error-path:reports the error:matrixEstimator.shapeHmm': 40,
+             'error-path:reports the error:scalarEstimator.MixtureStdDataSet.EvaluateLogPdf': 39,
+             'error-path:reports the error:scalarEstimator.MixtureSummarizedDataSet.EvaluateLogPdf': 34,
+             'error-path:reports the error:scalarEstimator.mixture': 38,
+             'error-path:reports the error:scalarEstimator.mixture_discrete': 37,
+             'error-path:reports the error:vectorEstimator.HmmStdDataSet.EvaluateLogPdf': 36,
+             'error-path:reports the error:vectorEstimator.HmmSummarizedDataSet.EvaluateLogPdf': 39,
+             'error-path:reports the error:vectorEstimator.MixtureStdDataSet.EvaluateLogPdf': 37,
+             'error-path:reports the error:vectorEstimator.hmm': 40,
+             'error-path:reports the error:vectorEstimator.hmm(mixture-emissions)': 34,
+             'error-path:reports the error:vectorEstimator.mixture': 36,
+             'error-path:sequential run reports the error': 610,
+             'options:OptimizeEmissions=false': 309,
+             'options:OptimizeWeights/Transitions=false': 316,
+             'options:nothing-optimized': 313,
              'branch:all-jobs-on-submitting-thread': 2034,
              'branch:some-thread-never-used': 6574,
              'branch:thread-0-never-used': 2165,
